@@ -18,7 +18,7 @@ AX = ["i", "j", "k", "l"]
 
 # ------------------------------------------------------------------ generation
 def gen_case(rng, max_funcs=4, allow_internal=True, allow_reduce=True, allow_nomapspec=True,
-             allow_tuple=True, max_roots=3, allow_autogen=True, sizes=None):
+             allow_tuple=True, max_roots=3, allow_autogen=False, sizes=None):
     sizes = sizes or {a: rng.randint(1, 3) for a in AX}
     arrays = {}  # name -> tuple of axis names (fixed by producer)
     roots = {}
@@ -77,6 +77,11 @@ def gen_case(rng, max_funcs=4, allow_internal=True, allow_reduce=True, allow_nom
             ms = None
             modes = {p: "whole" for p in params}
             out_axes, internal = [], []
+            if allow_autogen and rng.random() < 0.45:
+                # a function WITHOUT MapSpec that returns an array which later MapSpecs index by name: pipefunc
+                # autogenerates '... -> y[axes]' for it from the consumers' axis names
+                out_axes = rng.sample(AX, rng.randint(1, 2))
+                internal = list(out_axes)
         internal_shape = [sizes[a] for a in out_axes if a in internal]
         ret_list = rng.random() < 0.5
         if len(internal_shape) >= 2 and len(internal) == len(out_axes):
@@ -91,6 +96,15 @@ def gen_case(rng, max_funcs=4, allow_internal=True, allow_reduce=True, allow_nom
         })
         for o in outnames:
             arrays[o] = tuple(out_axes)
+    # an array-returning function without MapSpec needs at least one consumer that indexes it through a MapSpec;
+    # otherwise it is just a value: make it a scalar function again
+    for f in funcs:
+        if f["mapspec"] is None and f["out_axes"]:
+            named = any(isinstance(g["modes"].get(o), list) for g in funcs for o in f["outs"] if g["mapspec"])
+            if named:
+                f["autogen"] = True
+            else:
+                f["out_axes"], f["internal"], f["internal_shape"], f["ishape_via"] = [], [], [], None
     used = {p for f in funcs for p in f["params"]}
     roots = {k: v for k, v in roots.items() if k in used}
     return {"sizes": sizes, "roots": roots, "funcs": funcs}
@@ -181,7 +195,14 @@ def oracle(case, inputs=None):
             t = probes.term(f["name"], f["params"], kw)
             calls[f["name"]].append(((), t))
             for o, on in enumerate(f["outs"]):
-                env[on] = t if nout == 1 else f"{t}#{o}"
+                base = t if nout == 1 else f"{t}#{o}"
+                if f["internal_shape"]:
+                    arr = np.empty(tuple(f["internal_shape"]), dtype=object)
+                    for idx in np.ndindex(*arr.shape):
+                        arr[idx] = base + "@" + ",".join(map(str, idx))
+                    env[on] = arr
+                else:
+                    env[on] = base
             continue
         out_axes = f["out_axes"]
         shape = tuple(sizes[a] for a in out_axes)
@@ -250,7 +271,7 @@ def classes(case):
     cl = set()
     for f in case["funcs"]:
         if f["mapspec"] is None:
-            cl.add("nomapspec")
+            cl.add("autogen_mapspec" if f.get("autogen") else "nomapspec")
             continue
         ia = [k for k, a in enumerate(f["out_axes"]) if a in f["internal"]]
         ea = [k for k, a in enumerate(f["out_axes"]) if a not in f["internal"]]
